@@ -1940,7 +1940,13 @@ class StreamToExtendedDecorator(StreamResult):
 
     def _handle_tests(self, test_record):
         case = test_record.to_test_case()
-        case.run(self.decorated)
+        try:
+            case.run(self.decorated)
+        finally:
+            # The clock we set for this test must not date the next one: a
+            # test without timestamps gets the system clock, not a sibling's.
+            if any(t is not None for t in test_record.timestamps):
+                self.decorated.time(None)
 
 
 class StreamToQueue(StreamResult):
